@@ -104,6 +104,23 @@ def streams(seed, tier):
     cases.append(case(1, 11, base * 2, [state(bool=[True]), [], S("BOOLEAN.RAND"), 0, [], 0], tape(rng)))
     out.append(Stream("scalars-names", "rand", "rand.check", cases,
                       "INTEGER.RAND / FLOAT.RAND over configured intervals incl. equal, reversed, full range, overflowing width, infinite and NaN bounds; NAME.RANDBOUNDNAME with 0/1/5 bindings; NAME.RAND; BOOLEAN.RAND", project=project))
+    if tier != "quick":
+        # random parameters around the boundaries
+        cases = []
+        for _ in range(400):
+            size = rng.choice([rng.randrange(0, 12), rng.randrange(0, 130)])
+            sp = rng.choice([fbits(rng.random()), fbits(rng.randrange(0, 101) / 100.0), fbits(rng.uniform(-0.2, 1.2)), fbits(0.5 + rng.uniform(-1e-3, 1e-3))])
+            n, reach = reach_n(size, sp, 60)
+            if n > 6000:
+                n, reach = 60, 0
+            cases.append(case(rng.randrange(2), 4, n, [size, sp, reach], tape(rng)))
+        for _ in range(400):
+            lo = rng.choice([rng.randrange(-50, 50), rng.randrange(MIN32, MAX32), MIN32, MAX32 - 3])
+            hi = rng.choice([lo + rng.randrange(-2, 5), rng.randrange(MIN32, MAX32), MAX32])
+            hi = max(MIN32, min(MAX32, hi))
+            cases.append(case(rng.randrange(2), 6, 60, [rng.randrange(-1, 20), lo, hi], tape(rng)))
+        out.append(Stream("random-parameters", "rand", "rand.check", cases,
+                          "random (size, sparsity) incl. sparsities within 1e-3 of 0.5 and multiples of 1/100, random (size, min, max) incl. adjacent and extreme bounds", project=project))
     return out
 
 
